@@ -9,7 +9,8 @@ import (
 
 // ---------------------------------------------------------------------------------------------
 // CUR.cursor — the string scanner evaluated abstractly through its exported API against the cursor
-// model of the statement (C11): contents over {ordinary character, LF, CR} up to a bounded length,
+// model of the statement (C11): contents over {ordinary character, LF, CR} up to a bounded length
+// (and over {ordinary, LF, CR, format character} with a format character first, last or in between),
 // every number of leading reads, then every sequence of operations up to a bounded depth; after
 // every step the returned character and all five observers (Line, Column, Peek, PeekLine,
 // PeekColumn) must equal the model's, and observers must not move the cursor.
@@ -132,6 +133,9 @@ func (h *curHarness) observe(sc mv) (string, mOutcome) {
 type curVerdict struct {
 	bad, undec string
 	runs       int
+	// weak: a departure from the model which the scanner's own forward scan shares; reported when no script shows a
+	// report that depends on the history (the stronger witness)
+	weak string
 }
 
 var curxMemo *curVerdict
@@ -161,6 +165,33 @@ func (c *Ctx) curxRun() *curVerdict {
 	}
 	rec("", maxLen)
 	contents = append(contents, "ж😀\n", "ab\r\ncd\n\ref", "\r\n\r\n", "\n\r\n\r", "é")
+	// format characters (the byte order mark U+FEFF, the zero-width space U+200B, the soft hyphen U+00AD) are characters
+	// like any other to a cursor: not line breaks, so one column each, wherever they stand - first, last, before and after
+	// a line break. Contents over {ordinary, LF, CR, format character} with at least one format character.
+	fmtLen := 3
+	if c.Tier == "thorough" {
+		fmtLen = 4
+	}
+	for fi, f := range []string{"\uFEFF", "\u200B", "\u00AD"} {
+		var recf func(p string, n int)
+		recf = func(p string, n int) {
+			if strings.Contains(p, f) {
+				contents = append(contents, p)
+			}
+			if n == 0 {
+				return
+			}
+			for _, a := range []string{"a", "\n", "\r", f} {
+				recf(p+a, n-1)
+			}
+		}
+		if fi == 0 {
+			recf("", fmtLen)
+		} else {
+			recf("", 2)
+		}
+		contents = append(contents, f+"ab\r\n"+f+"c\n", "a"+f+"\n\r"+f)
+	}
 	ops := []string{"Read", "Unread", "UnreadMany(2)", "UnreadMany(0)", "UnreadMany(-1)", "UnreadMany(7)", "Reset"}
 	var seqs [][]string
 	var recs func(p []string, n int)
@@ -214,8 +245,10 @@ func (c *Ctx) curxRun() *curVerdict {
 						}
 						// the fresh scanner
 						if got, out := h.observe(sc); out.kind == "ok" && got != ref.observe() {
-							v.bad = fmt.Sprintf("a new scanner over %q reports [%s]; the cursor model gives [%s]", s, got, ref.observe())
-							break
+							if v.weak == "" {
+								v.weak = fmt.Sprintf("a new scanner over %q reports [%s]; the cursor model gives [%s] (every character that is not a line break is one column)", s, got, ref.observe())
+							}
+							// the script is still run: what it reports later may moreover depend on the history
 						}
 						for _, op := range full {
 							hist = append(hist, op)
@@ -244,8 +277,31 @@ func (c *Ctx) curxRun() *curVerdict {
 								break
 							}
 							if obs != ref.observe() {
-								v.bad = fmt.Sprintf("%s the scanner reports [%s]; a cursor at that position reports [%s] (position-only line/column; peeks are those after the next read)", where, obs, ref.observe())
-								break
+								msg := fmt.Sprintf("%s the scanner reports [%s]; a cursor at that position reports [%s] (position-only line/column, every character that is not a line break is one column; peeks are those after the next read)", where, obs, ref.observe())
+								same := false
+								// what this scanner's own fresh forward scan to the same position reports
+								if fr, out := h.m.Call(ctor, s); out.kind == "ok" {
+									okf := true
+									for i := 0; i < ref.pos && okf; i++ {
+										_, out := h.op(fr, "Read")
+										okf = out.kind == "ok"
+									}
+									if fobs, out := h.observe(fr); okf && out.kind == "ok" {
+										if fobs != obs {
+											msg += fmt.Sprintf("; a new scanner over the same content after %d reads reports [%s]", ref.pos, fobs)
+										} else {
+											msg += "; a new scanner read forward to that position reports the same"
+											same = true
+										}
+									}
+								}
+								if !same {
+									v.bad = msg
+									break
+								}
+								if v.weak == "" {
+									v.weak = msg
+								}
 							}
 						}
 					}
@@ -256,10 +312,22 @@ func (c *Ctx) curxRun() *curVerdict {
 	wg.Wait()
 	total := &curVerdict{}
 	for _, p := range parts {
-		total.runs += p.runs
-		if p.bad != "" && (total.bad == "" || p.bad < total.bad) {
-			total.bad = p.bad
+		if p.bad == "" {
+			p.bad = p.weak
 		}
+	}
+	for _, strong := range []bool{true, false} {
+		if !strong && total.bad != "" {
+			break
+		}
+		for _, p := range parts {
+			if (p.bad != p.weak) == strong && p.bad != "" && (total.bad == "" || p.bad < total.bad) {
+				total.bad = p.bad
+			}
+		}
+	}
+	for _, p := range parts {
+		total.runs += p.runs
 		if p.undec != "" && total.undec == "" {
 			total.undec = p.undec
 		}
@@ -270,7 +338,7 @@ func (c *Ctx) curxRun() *curVerdict {
 
 func init() {
 	register(&Rule{ID: "CUR.cursor", Floor: 1,
-		Doc: "the string scanner evaluated abstractly through NewStringScanner/Read/Unread/UnreadMany/Peek/PeekLine/PeekColumn/Line/Column/Reset against the cursor model of the statement, over contents of {ordinary, LF, CR} up to a bounded length, every number of leading reads and every operation sequence up to a bounded depth",
+		Doc: "the string scanner evaluated abstractly through NewStringScanner/Read/Unread/UnreadMany/Peek/PeekLine/PeekColumn/Line/Column/Reset against the cursor model of the statement, over contents of {ordinary, LF, CR} up to a bounded length and contents of {ordinary, LF, CR, format character (U+FEFF, U+200B, U+00AD: one column each, at position 0 and elsewhere)}, every number of leading reads and every operation sequence up to a bounded depth",
 		Run: func(c *Ctx) []*Obligation {
 			o := newObl("CUR.cursor")
 			v := c.curxRun()
